@@ -169,6 +169,8 @@ func (s *Subscriber) poll(ctx context.Context) (_progress uint64, _new bool, _er
 	log.Debugf("polling %d peers for instance %d", len(peers), s.poller.NextInstance)
 	pollsSinceLastProgress := 0
 	start := s.poller.NextInstance
+	// Progress is the number of instances the poller advanced by during this round.
+	defer func() { _progress = s.poller.NextInstance - start }()
 	var (
 		certificatesReceived    uint64
 		newCertificatesReceived uint64
